@@ -24,6 +24,7 @@ type Case struct {
 	Depth    int
 	Sizes    []int
 	Us       []string
+	NoTree   bool
 }
 
 // Spec describes a space of expressions.
